@@ -362,3 +362,14 @@ def _keyerr_facts(sp, S, facts):
 
 def _closure_full(sp):
     return G.closure(sp, expand_absorbing=True)
+
+
+
+def parent_phase(tier, seed, jobs, tmp, envf):
+    """thorough tier: the repository's own test-suite under the ambient 'arrays' monitor"""
+    if tier != "thorough":
+        return [], None
+    from mon.probe.ambient import run_ambient
+    rec = run_ambient({"arrays"}, tmp, envf)
+    rec["prop"] = PROP
+    return [rec], {"ambient_test_suite": rec["sample"]}
